@@ -84,17 +84,17 @@ PROPS["C17"] = {
     "level": "model_checking",
     "jobs": [
         {"name": "pkg", "pkg": "goa.design/goa/v3/pkg", "pkgdir": "pkg", "pkgname": "goa", "harness_dir": "pkg",
-         "files": ["zz_verif_c17.go"], "quick": r"^VerifC17_", "thorough": r"^VerifC17T?_"},
+         "files": ["zz_verif_c17.go"], "quick": r"^VerifC17_", "thorough": r"^VerifC17T?_", "shards": {"Hostname5": 6}},
     ],
     "bounds": {"quick": {"hostname_chars": "0..4 ASCII bytes", "ip_templates": 7, "pattern_values": "0..3 bytes x 5 patterns x 0-2 earlier calls"},
-               "thorough": {"hostname_chars": "0..6 ASCII bytes"}},
+               "thorough": {"hostname_chars": "0..5 ASCII bytes"}},
     "assumptions": ["regexp matching on symbolic text is an exact simulation of the regexp/syntax program (one rune per byte: exact for ASCII-only classes / ASCII input)",
                     "net.ParseIP is executed symbolically from its own SSA (netip.ParseAddr)"],
     "outside": ["exactness of time.Parse, mail.ParseAddress, uuid.Parse, net.ParseMAC/ParseCIDR, url.ParseRequestURI, json.Valid for their formats (stdlib parsers, not goa code)",
                 "host names longer than the bound; patterns other than the 5 sampled ones (cache keyed by the full pattern text is checked only for those)",
                 "1-16 goroutines on the pattern cache (lock discipline is part of C20)"],
     "manifest": {
-        "text": "Bounded model checking of goa's own logic in pkg.ValidateFormat/ValidatePattern: the two regular expressions goa wrote (hostname, ipv4) are evaluated exactly on symbolic strings (NFA simulation of Go's regexp/syntax program as an SMT term) and compared with reference grammars (strict RFC 1035/1123 labels; dotted quad) for every ASCII string up to 4 (6) bytes; ip/ipv4/ipv6 are run with the real net.ParseIP on 7 template families and must satisfy ip = ipv4 xor ipv6 and ipv4 <=> dotted quad; ValidatePattern must agree with regexp matching for every value up to 3 bytes after any history of 0-2 earlier calls. Partial: the stdlib/third-party parsers behind the other formats are not decided.",
+        "text": "Bounded model checking of goa's own logic in pkg.ValidateFormat/ValidatePattern: the two regular expressions goa wrote (hostname, ipv4) are evaluated exactly on symbolic strings (NFA simulation of Go's regexp/syntax program as an SMT term) and compared with reference grammars (strict RFC 1035/1123 labels; dotted quad) for every ASCII string up to 4 (5) bytes; ip/ipv4/ipv6 are run with the real net.ParseIP on 7 template families and must satisfy ip = ipv4 xor ipv6 and ipv4 <=> dotted quad; ValidatePattern must agree with regexp matching for every value up to 3 bytes after any history of 0-2 earlier calls. Partial: the stdlib/third-party parsers behind the other formats are not decided.",
         "note": "Trusted: gosym executor, z3, regexp/syntax compiler (used to obtain the program that is simulated). Two genuine defects of hostnameRegex are listed in known_findings.json (not repairable without editing an existing test).",
     },
 }
